@@ -72,8 +72,9 @@ type script struct {
 	Ops       []string `json:"payload_edits,omitempty"`
 
 	// observation
-	Result string `json:"obs_result"`
-	ErrMsg string `json:"obs_error,omitempty"`
+	RetOther bool   `json:"obs_returned_envelope_not_over_requested_descriptor,omitempty"`
+	Result   string `json:"obs_result"`
+	ErrMsg   string `json:"obs_error,omitempty"`
 }
 
 var (
@@ -115,9 +116,17 @@ type plugin struct {
 	gs      gsFacts
 	ge      geFacts
 	respAnn map[string]string // the plugin's own map, answered by reference in every generate-envelope response
+	hook    func()            // concurrency family: called on entry of every plugin command
+}
+
+func (p *plugin) enter() {
+	if p.hook != nil {
+		p.hook()
+	}
 }
 
 func (p *plugin) GetMetadata(ctx context.Context, req *pl.GetMetadataRequest) (*pl.GetMetadataResponse, error) {
+	p.enter()
 	if p.s.MetaErr {
 		return nil, errMeta
 	}
@@ -146,6 +155,7 @@ func (p *plugin) GetMetadata(ctx context.Context, req *pl.GetMetadataRequest) (*
 }
 
 func (p *plugin) DescribeKey(ctx context.Context, req *pl.DescribeKeyRequest) (*pl.DescribeKeyResponse, error) {
+	p.enter()
 	if p.s.DKErr {
 		return nil, errDescribe
 	}
@@ -226,6 +236,7 @@ func chainFor(kind string, id *identity) [][]byte {
 }
 
 func (p *plugin) GenerateSignature(ctx context.Context, req *pl.GenerateSignatureRequest) (*pl.GenerateSignatureResponse, error) {
+	p.enter()
 	f := &p.gs
 	f.called = true
 	f.reqKeySpec, f.reqHash = string(req.KeySpec), string(req.Hash)
@@ -289,6 +300,7 @@ func (p *plugin) GenerateSignature(ctx context.Context, req *pl.GenerateSignatur
 }
 
 func (p *plugin) GenerateEnvelope(ctx context.Context, req *pl.GenerateEnvelopeRequest) (*pl.GenerateEnvelopeResponse, error) {
+	p.enter()
 	f := &p.ge
 	f.called = true
 	if p.s.GEErr {
@@ -434,6 +446,7 @@ type session struct {
 	urls    []string          // Descriptor.URLs
 	ann     map[string]string // Descriptor.Annotations (reused while the requested annotations stay the same)
 	annSet  bool
+	ctx     context.Context // nil = context.Background()
 }
 
 func newSession(keyID string, now time.Time) *session {
@@ -500,6 +513,10 @@ func runCase(id int64, s *script, now time.Time, sess *session) (term string, ke
 	}
 	p, ps := sess.p, sess.ps
 	p.s, p.gs, p.ge = s, gsFacts{}, geFacts{}
+	ctx := sess.ctx
+	if ctx == nil {
+		ctx = context.Background()
+	}
 	want := copyMap(s.Desc.Ann)
 	if s.AnnEmptyMap && len(want) == 0 {
 		want = map[string]string{}
@@ -547,12 +564,12 @@ func runCase(id int64, s *script, now time.Time, sess *session) (term string, ke
 			}
 		}()
 		if s.Blob {
-			sig, _, serr = ps.SignBlob(context.Background(), func(a digest.Algorithm) (ocispec.Descriptor, error) {
+			sig, _, serr = ps.SignBlob(ctx, func(a digest.Algorithm) (ocispec.Descriptor, error) {
 				dalg = digestBits(a)
 				return desc, nil
 			}, opts)
 		} else {
-			sig, _, serr = ps.Sign(context.Background(), desc, opts)
+			sig, _, serr = ps.Sign(ctx, desc, opts)
 		}
 	}()
 
@@ -672,6 +689,8 @@ func retFacts(s *script, sig []byte, p *plugin) string {
 			}
 		}
 	}
+	annEq := (len(d.Annotations) == 0 && len(s.Desc.Ann) == 0) || sameMap(copyMap(d.Annotations), copyMap(s.Desc.Ann))
+	s.RetOther = !(verifies && d.MediaType == s.Desc.MT && string(d.Digest) == s.Desc.DG && d.Size == s.Desc.Size && annEq)
 	return CApp("mk_ret", CBool(verifies), CStr(ctype), CStr(d.MediaType), CStr(string(d.Digest)), CZ(d.Size), coqAnn(d.Annotations),
 		CBool(clean), CBool(chainIs), coqAlgOpt(a))
 }
@@ -901,6 +920,9 @@ func runC18(a *Args) error {
 	rng := NewRng(a.Seed)
 	now := time.Now()
 	loadIdentities(now)
+	if len(a.Extra) == 2 && a.Extra[0] == "conc-child" {
+		return concChild(a, a.Extra[1], now)
+	}
 	prelude := "From NV Require Import Base C18_Json C18_Model.\nOpen Scope string_scope.\n"
 	w := NewCaseWriter(a, "C18", prelude, "case", "run")
 	w.Rule = "scripted plugin.SignPlugin with real keys for the six key specs (two keys each) driving the real signer.PluginSigner.Sign / SignBlob. Families: (corpus) hand-written payloads incl. \"TargetArtifact\", duplicated members, null; (envelope-payload) honest payload for a descriptor from a pool, changed by 0-2 of 23 edit operators (other digest/size/media type, literal forms of size, dropped/altered/added/duplicated/split/null annotations, unknown / differently spelled / optional / duplicated descriptor members, extra / differently spelled / duplicated payload members, unknown member hidden behind a duplicate, non-object payloads, non-JSON bytes), signed into a COSE envelope (notation-core-go, remote signer) or a hand-assembled JWS (payload bytes kept as they are), all six key specs; (envelope-level) wrong type echo, other real format, wrong content type, chain of another key, flipped / truncated / garbage / empty envelope, plugin error, unsupported requested type; (raw) describe-key and generate-signature answers: other key id, undecodable key spec, errors, chain of another key / another spec / leaf only / root only / reversed / empty / unparsable / expired / self-signed, wrong hash, flipped / empty / truncated signature, key of another spec than described; (dispatch) metadata error, no / both capabilities, Sign and SignBlob. The payload tree printed for the model is re-read token by token from the payload bytes the envelope really carries. non-trivial = the plugin answered the signing call (generate-envelope or generate-signature) so the outcome was decided by the signer's checks; distinct = distinct scripts"
@@ -924,8 +946,12 @@ func runC18(a *Args) error {
 		{"raw", 300000, 900, 12000, scenRaw},
 		{"dispatch", 400000, 240, 3000, scenDispatch},
 	}
+	var record func(id int64, s *script, term, key string, nt, ok bool, frame []string)
 	emit := func(id int64, s *script, sess *session) {
 		term, key, nt, ok, frame := runCase(id, s, now, sess)
+		record(id, s, term, key, nt, ok, frame)
+	}
+	record = func(id int64, s *script, term, key string, nt, ok bool, frame []string) {
 		for _, what := range frame {
 			w.ImplViolation(id, "library mutated caller-owned "+what, s, "frame:"+what)
 			w.Count("frame-violation", what)
@@ -1004,5 +1030,6 @@ func runC18(a *Args) error {
 			}
 		}
 	}
+	runConcFamily(a, w, record)
 	return w.Close()
 }
